@@ -325,6 +325,10 @@ void add_type(Node *node) {
       error_tok(node->cas_addr->tok, "pointer expected");
     if (node->cas_old->ty->kind != TY_PTR)
       error_tok(node->cas_old->tok, "pointer expected");
+    // The desired value is converted to the type of the object.
+    if (node->cas_addr->ty->base->kind != TY_STRUCT &&
+        node->cas_addr->ty->base->kind != TY_UNION)
+      node->cas_new = new_cast(node->cas_new, node->cas_addr->ty->base);
     return;
   case ND_EXCH:
     if (node->lhs->ty->kind != TY_PTR)
